@@ -175,6 +175,7 @@ pub fn run() -> i32 {
         .build()
         .unwrap();
     let mut bad = 0;
+    let mut inconclusive = 0;
     for case in cases() {
         let sim = sim_case(&case);
         let real = rt.block_on(async {
@@ -198,10 +199,18 @@ pub fn run() -> i32 {
                 bad += 1;
             }
             None => {
-                println!("glue {}: real stack produced no result", case.name);
-                bad += 1;
+                // the real stack runs in real time with real processes: on an overloaded machine
+                // its own time-outs may strike; that says nothing about the glue
+                println!("glue {}: real stack produced no result (inconclusive)", case.name);
+                inconclusive += 1;
             }
         }
     }
-    if bad == 0 { 0 } else { 2 }
+    if bad > 0 {
+        2
+    } else if inconclusive > 0 {
+        3
+    } else {
+        0
+    }
 }
